@@ -3,6 +3,7 @@ import ChythonModel.Proofs.C07WF
 import ChythonModel.Proofs.C07Product
 import ChythonModel.Proofs.C07Compile
 import ChythonModel.Proofs.C07Stack
+import ChythonModel.Proofs.C07Top
 /-!
 # C07 — substructure search returns exactly the set of valid embeddings
 
@@ -191,6 +192,98 @@ theorem scope_exact (q t : Graph) (comps : List (List Step)) (cl : Closures) (hq
       rw [← hfg _ hu, ← hfg v hvF]; exact emb.bond_matches _ hu v hv
     · intro u hu v hv h; rw [← hfg u hu, ← hfg v hv] at h; exact emb.no_extra_bond u hu v hv h
 
+/-! ## the whole call for a connected pattern: `Isomorphism._get_mapping`, branch `len(components) == 1` -/
+
+/-- **`iso_single_exact`**: for a well-formed connected pattern (its linearisation has one component), a well-formed target
+    whose `connected_components` were accepted by `checkComponents`, any `searching_scope` (`none`, or a list — also an empty
+    one) and direction-independent bond compatibility, `Isomorphism._get_mapping` (before the `seen` filter) terminates
+    normally with a duplicate-free list whose members are exactly the dicts of the maps satisfying the FULL specification
+    `IsEmbedding` (injective, atoms match, bonds match, no additional bond, components apart, inside the scope). -/
+theorem iso_single_exact (p : Problem) (hq : p.q.WF = true) (ht : p.t.WF = true)
+    (hpart : checkComponents p.t p.tComps = true) (hb : BondSymm p.bondOk) (lq : List Step) (cl : Closures)
+    (hcq : compileQuery p.q = some ([lq], cl)) :
+    ∃ r, isoUnfiltered p [lq] cl = some r ∧ r.Nodup ∧
+      ∀ m, m ∈ r ↔ ∃ f, m = asDict (lq.map (·.front)) f ∧
+        IsEmbedding p.q p.t (scopeFn p.scope) p.atomOk p.bondOk f := by
+  have hc := compile_covers p.q hq [lq] cl hcq
+  have hlq : lq ∈ [lq] := by simp
+  have hQ := wf_ok p.q hq
+  have hP := checkComponents_sound p.t p.tComps hpart
+  have hcomp := hc.comp lq hlq
+  have hmem : ∀ u, u ∈ p.q.atoms ↔ u ∈ lq.map (·.front) := by
+    intro u
+    constructor
+    · intro h; simpa using hc.cover u h
+    · intro h; exact hc.sub u (by simpa using h)
+  have hconn := comp_connected p.q hQ.symm cl lq hcomp
+  have hclosed := comp_closed p.q cl lq hcomp
+  have hx : ∀ cand, (∀ m, m ∈ recMapping (mkEnv p cl lq (restrict p.scope cand)) ↔
+      ∃ f, m = asDict (lq.map (·.front)) f ∧
+        EmbedsComp p.q p.t (lq.map (·.front)) (fun n => (restrict p.scope cand).contains n) p.atomOk p.bondOk f) ∧
+      (recMapping (mkEnv p cl lq (restrict p.scope cand))).Nodup :=
+    fun cand => component_exact p.q p.t [lq] cl hq ht hc lq hlq _ p.atomOk p.bondOk hb
+  have hgm : ∀ cand, getMapping (mkEnv p cl lq (restrict p.scope cand)) =
+      some (recMapping (mkEnv p cl lq (restrict p.scope cand))) :=
+    fun cand => stack_refines_rec p.q p.t [lq] cl hq ht hc lq hlq _ p.atomOk p.bondOk hb
+  -- the first atom of the pattern
+  obtain ⟨s0, h0⟩ : ∃ s0, lq[0]? = some s0 := by
+    cases hl : lq with
+    | nil => exact absurd hl hcomp.ne
+    | cons a l => exact ⟨a, rfl⟩
+  have hu0 : s0.front ∈ lq.map (·.front) := front_mem lq 0 s0 h0
+  refine ⟨_, isoUnfiltered_single p cl lq hgm, ?_, ?_⟩
+  · -- no duplicates: different target components give different images of the first atom
+    rw [List.nodup_flatMap]
+    refine ⟨fun cand _ => (hx cand).2, ?_⟩
+    refine List.Pairwise.imp ?_ hP.disjoint
+    intro c1 c2 hdis
+    simp only [Function.onFun]
+    intro m hm1 hm2
+    obtain ⟨f1, rfl, e1⟩ := ((hx c1).1 m).1 hm1
+    obtain ⟨f2, h12, e2⟩ := ((hx c2).1 _).1 hm2
+    have heq := asDict_inj _ f1 f2 h12 s0.front hu0
+    have i1 := e1.in_scope _ hu0
+    have i2 := e2.in_scope _ hu0
+    simp only [restrict_contains, Bool.and_eq_true, List.contains_iff_mem] at i1 i2
+    exact hdis i1.1 (heq ▸ i2.1)
+  · intro m
+    rw [List.mem_flatMap]
+    constructor
+    · rintro ⟨cand, _, hm⟩
+      obtain ⟨f, rfl, emb⟩ := ((hx cand).1 m).1 hm
+      refine ⟨f, rfl, ?_⟩
+      refine ⟨?_, ?_, ?_, ?_, ?_, ?_, ?_⟩
+      · intro u hu v hv h; exact emb.injective u ((hmem u).1 hu) v ((hmem v).1 hv) h
+      · intro u hu; exact emb.atom_in_target u ((hmem u).1 hu)
+      · intro u hu; exact emb.atom_matches u ((hmem u).1 hu)
+      · intro u hu v hv; exact emb.bond_matches u ((hmem u).1 hu) v hv
+      · intro u hu v hv _ h; exact emb.no_extra_bond u ((hmem u).1 hu) v ((hmem v).1 hv) h
+      · intro u hu v hv hnr; exact absurd (hconn u v ((hmem u).1 hu) ((hmem v).1 hv)) hnr
+      · intro u hu
+        have := emb.in_scope u ((hmem u).1 hu)
+        simp only [restrict_contains, Bool.and_eq_true] at this
+        exact this.2
+    · rintro ⟨f, rfl, isE⟩
+      -- the target component of the image of the first atom
+      obtain ⟨cand, hcand, hfc⟩ := hP.cover _ (isE.atom_in_target _ ((hmem _).2 hu0))
+      have himg : ∀ u ∈ lq.map (·.front), f u ∈ cand := by
+        intro u hu
+        have hr : Reach p.t (f s0.front) (f u) :=
+          reach_map (fun w => w ∈ lq.map (·.front)) hclosed f
+            (fun w hw v hv => (isE.bond_matches w ((hmem w).2 hw) v hv).1) hu0 (hconn _ _ hu0 hu)
+        exact reach_closed (fun y => y ∈ cand) (fun x hx y hy => hP.closed cand hcand x hx y hy) hfc hr
+      refine ⟨cand, hcand, ((hx cand).1 _).2 ⟨f, rfl, ?_⟩⟩
+      refine ⟨?_, ?_, ?_, ?_, ?_, ?_⟩
+      · intro u hu v hv h; exact isE.injective u ((hmem u).2 hu) v ((hmem v).2 hv) h
+      · intro u hu; exact isE.atom_in_target u ((hmem u).2 hu)
+      · intro u hu; exact isE.atom_matches u ((hmem u).2 hu)
+      · intro u hu v hv; exact isE.bond_matches u ((hmem u).2 hu) v hv
+      · intro u hu v hv h
+        exact isE.no_extra_bond u ((hmem u).2 hu) v ((hmem v).2 hv) (hconn u v hu hv) h
+      · intro u hu
+        simp only [restrict_contains, Bool.and_eq_true, List.contains_iff_mem]
+        exact ⟨himg u hu, isE.in_scope u ((hmem u).2 hu)⟩
+
 /-! ## the automorphism filter: exactly one mapping per distinct set of image atoms -/
 
 /-- the `seen` filter keeps a sub-list of the mappings, no two survivors have the same image set, and every image set
@@ -205,6 +298,20 @@ theorem filter_one_per_image_set (ms : List Dict) :
   rcases h4 m hm with ⟨k, hk, _⟩ | h
   · simp at hk
   · exact h
+
+/-- the filtered call: `isoGetMapping` with `automorphism_filter=True` keeps exactly one of those embeddings per image set -/
+theorem iso_single_filtered (p : Problem) (hq : p.q.WF = true) (ht : p.t.WF = true)
+    (hpart : checkComponents p.t p.tComps = true) (hb : BondSymm p.bondOk) (lq : List Step) (cl : Closures)
+    (hcq : compileQuery p.q = some ([lq], cl)) (haf : p.autoFilter = true) :
+    ∃ r, isoUnfiltered p [lq] cl = some r ∧ isoGetMapping p = some (autoFilter r) ∧
+      (autoFilter r).Sublist r ∧
+      (autoFilter r).Pairwise (fun a b => setEq (vals a) (vals b) = false) ∧
+      (∀ m ∈ r, ∃ m' ∈ autoFilter r, setEq (vals m) (vals m') = true) := by
+  obtain ⟨r, hr, _, _⟩ := iso_single_exact p hq ht hpart hb lq cl hcq
+  obtain ⟨f1, f2, f3⟩ := filter_one_per_image_set r
+  refine ⟨r, hr, ?_, f1, f2, f3⟩
+  unfold isoGetMapping
+  simp [hcq, hr, haf]
 
 /-! ## `lazy_product` and `itertools.permutations` (component assignment of multi-component patterns) -/
 
@@ -297,5 +404,15 @@ example : getMapping (envOf tMixed [⟨1, none⟩, ⟨2, some 1⟩, ⟨3, some 2
     some (recMapping (envOf tMixed [⟨1, none⟩, ⟨2, some 1⟩, ⟨3, some 2⟩] [(2, []), (3, [])] (fun _ => true)
     (fun _ _ => true) (fun _ _ _ _ => true))) := by decide
 example : (autoFilter [[(1, 20), (2, 21)], [(1, 21), (2, 20)], [(1, 21), (2, 22)]]).length = 2 := by decide
+
+/-- the whole call on the same example: hypotheses of `iso_single_exact` hold, 4 embeddings without scope, 2 inside the scope
+    `{20, 21, 22}`, none inside the empty scope -/
+def pMixed (scope : Option (List Nat)) : Problem :=
+  { q := qPropane, t := tMixed, tComps := [[10, 11, 12], [20, 21, 22, 23]], scope := scope, autoFilter := false,
+    atomOk := fun _ _ => true, bondOk := fun _ _ _ _ => true }
+example : checkComponents tMixed [[10, 11, 12], [20, 21, 22, 23]] = true := by decide
+example : (isoGetMapping (pMixed none)).map List.length = some 4 := by decide
+example : (isoGetMapping (pMixed (some [20, 21, 22]))).map List.length = some 2 := by decide
+example : (isoGetMapping (pMixed (some []))).map List.length = some 0 := by decide
 
 end ChythonModel.Props.C07
